@@ -85,6 +85,9 @@ func startHangWatchdog(limit time.Duration) {
 			if st != 0 && time.Since(time.Unix(0, st)) > limit {
 				buf := make([]byte, 1<<20)
 				buf = buf[:runtime.Stack(buf, true)]
+				if e := curEnv.Load(); e != nil {
+					fmt.Fprintf(os.Stderr, "HANG-STATE seamParks=%d libParks=%d baseG=%d numG=%d forceDump=%v\n", e.seamParks.Load(), e.libParks.Load(), e.baseG, runtime.NumGoroutine(), e.forceDump)
+				}
 				fmt.Fprintf(os.Stderr, "HANG run=%v\n%s\n", curRun.Load(), buf)
 				os.Exit(3)
 			}
